@@ -20,9 +20,9 @@ var payloadTags = map[string][]string{
 
 // frozen exceptions of R7: function -> reason
 var payloadExceptions = map[string]string{
-	"sort comparator": "the numeric comparison dereferences *Num only under the captured all-numbers flag, which the scan clears as soon as one element is not a number (C15/R3 sort-numeric-guard, sort-all-numbers-scan)",
-	"(*lang.Value).GetMember array arm": "int(*member.Num) is reached when member.Tag == ValueNum or v.Proto == nil; every array Value is built with Proto = getArrayPrototype() (checked: all composite literals with Tag: ValueArray set Proto), so the second disjunct never holds for an array",
-	"(*lang.Value).resolveIndex": "called only with a member whose tag was established as number by its two callers (GetMember's array arm, see above; SetMember after `member.Tag != ValueNum -> error`): checked at the call sites",
+	"sort comparator":                            "the numeric comparison dereferences *Num only under the captured all-numbers flag, which the scan clears as soon as one element is not a number (C15/R3 sort-numeric-guard, sort-all-numbers-scan)",
+	"(*lang.Value).GetMember array arm":          "int(*member.Num) is reached when member.Tag == ValueNum or v.Proto == nil; every array Value is built with Proto = getArrayPrototype() (checked: all composite literals with Tag: ValueArray set Proto), so the second disjunct never holds for an array",
+	"(*lang.Value).resolveIndex":                 "called only with a member whose tag was established as number by its two callers (GetMember's array arm, see above; SetMember after `member.Tag != ValueNum -> error`): checked at the call sites",
 	"(*lang.Evaluator).createSpeculativeObjects": "Str / Num of a speculative value are dereferenced under explicit `!= nil` tests of those fields",
 }
 
@@ -412,7 +412,7 @@ func constIndexGuard(p *Program, fn *ssa.Function, at ssa.Instruction, X ssa.Val
 
 // frozen exceptions of the index rule: "function slice[index]" -> reason
 var indexExceptions = map[string]string{
-	"(*lang.Value).SetMember v.Array[(*lang.Value).resolveIndex(v, member)#0]": "either index < len(v.Array) already (the fill branch is skipped under that fact), or the fill loop `for i := len(v.Array); i <= index; i++ { append }` ran, after which len(v.Array) == index + 1 (loop invariant len == i; argued by reading, the loop's bounds are checked by C15/R4 fill-loop-bound)",
+	"(*lang.Value).SetMember v.Array[(*lang.Value).resolveIndex(v, member)#0]":       "either index < len(v.Array) already (the fill branch is skipped under that fact), or the fill loop `for i := len(v.Array); i <= index; i++ { append }` ran, after which len(v.Array) == index + 1 (loop invariant len == i; argued by reading, the loop's bounds are checked by C15/R4 fill-loop-bound)",
 	"lang.nativePrintf *lang.checkArg(args, 0, ValueStr)#0.Str[(φint0 + 1):φint][0]": "the width text is format[i:numEnd] with numEnd initialised to i+1 and only incremented, so it has at least one byte",
 }
 
